@@ -25,7 +25,9 @@
         transfer is never completed ([C20_note_end_index_zero_never_completes]). *)
 From Coq Require Import NArith List Permutation.
 From DTN Require Import Lib.Bytes Model.Btpu.
-From DTN Require Import Proofs.BtpuProofs Proofs.BtpuSendProofs Proofs.BtpuRecvProofs Proofs.BtpuTopProofs.
+From Coq Require Import ZArith.
+From DTN Require Import Gen.BtpuBudget.
+From DTN Require Import Proofs.BtpuProofs Proofs.BtpuSendProofs Proofs.BtpuRecvProofs Proofs.BtpuTopProofs Proofs.BtpuBudgetProofs.
 Import ListNotations.
 Local Open Scope N_scope.
 
@@ -166,6 +168,55 @@ Theorem C20_reassembly_any_hints :
         /\ r_signals (fold_left (recv_frame conv) p1 st) = r_signals st).
 Proof. exact reassembly_h. Qed.
 Print Assumptions C20_reassembly_any_hints.
+
+(** ** Tie to the source: Gen/BtpuBudget.v is regenerated from btpu/agent.py
+    and btpu/messages.py on every run; the model's sender is what it says. *)
+
+Theorem C20_tie_fits : forall total mtu : N,
+  BtpuBudget.unsegmented (Z.of_N total) (Z.of_N mtu) = fits (Some mtu) total.
+Proof. exact tie_fits. Qed.
+Print Assumptions C20_tie_fits.
+
+Theorem C20_tie_hint : forall total : N,
+  xfer_hints total = [mkHint BtpuBudget.hint_type (be BtpuBudget.hint_width total)].
+Proof. exact tie_hint. Qed.
+Print Assumptions C20_tie_hint.
+
+Theorem C20_tie_remain : forall (hs : list hint) (mtu : N),
+  Z.to_N (BtpuBudget.remain_size (Z.of_N mtu) (Z.of_N (head_len hs))) = Btpu.remain_size hs mtu.
+Proof. exact tie_remain. Qed.
+Print Assumptions C20_tie_remain.
+
+Theorem C20_tie_types_widths : forall hs x i d,
+  (m_type (mk_bundle d) = BtpuBudget.type_pdu
+   /\ m_type (mk_padding d) = BtpuBudget.type_padding
+   /\ m_type (mk_seg hs false x i d) = BtpuBudget.type_more
+   /\ m_type (mk_seg hs true x i d) = BtpuBudget.type_last
+   /\ m_type (mk_cancel x) = BtpuBudget.type_cancel)
+  /\ (LEN_MOD = 2 ^ BtpuBudget.len_bits
+      /\ 16 = 2 ^ BtpuBudget.flags_bits
+      /\ 128 = 2 ^ BtpuBudget.hint_type_bits
+      /\ 2 = 2 ^ BtpuBudget.h_flag_bits
+      /\ BtpuBudget.flags_bits + BtpuBudget.len_bits = 24).
+Proof. intros. split; [apply tie_types|exact tie_widths]. Qed.
+Print Assumptions C20_tie_types_widths.
+
+(** One iteration of the code's loop at offset [off] is one step of [chunk]
+    on the remainder [skipn off data]. *)
+Theorem C20_tie_loop_step : forall (data : bytes) (off rs : nat),
+  (off <= length data)%nat ->
+  let total := Z.of_nat (length data) in
+  let o := Z.of_nat off in
+  let r := Z.of_nat rs in
+  let rem := skipn off data in
+  BtpuBudget.loop_test o total = negb (is_nil rem)
+  /\ firstn (Z.to_nat (BtpuBudget.slice_hi o r) - Z.to_nat (BtpuBudget.slice_lo o r))
+            (skipn (Z.to_nat (BtpuBudget.slice_lo o r)) data) = firstn rs rem
+  /\ skipn (Z.to_nat (BtpuBudget.next_offset o r)) data = skipn rs rem
+  /\ BtpuBudget.more_test (BtpuBudget.next_offset o r) total = negb (is_nil (skipn rs rem))
+  /\ BtpuBudget.next_idx 0 = 1%Z /\ BtpuBudget.init_idx = 0%Z /\ BtpuBudget.init_offset = 0%Z.
+Proof. exact tie_loop_step. Qed.
+Print Assumptions C20_tie_loop_step.
 
 (** ** Noted behaviour outside C20's quantifier (what the guards exclude) *)
 
